@@ -689,7 +689,7 @@ End V5.
 Definition is_decoy_step (s : step) : bool := match s with SDecoy _ => true | _ => false end.
 Definition site_path (p : path) : bool := negb (existsb is_decoy_step p).
 (* a disclosure the holder can choose: arity 2 or 3; the others are the decoy salts of the v5 list *)
-Definition Qd (d : disc) : Prop := d_e d <> 0%N \/ site_path (d_salt d) = false.
+Definition Qd (d : disc) : Prop := (2 <= d_e d)%N \/ site_path (d_salt d) = false.
 
 Lemma site_path_decoy p i : site_path (p ++ [SDecoy i]) = false.
 Proof. unfold site_path. rewrite existsb_app. cbn. rewrite orb_true_r. reflexivity. Qed.
@@ -741,7 +741,7 @@ Lemma elems5_Qd o p l : forall i, Forall Qd (snd (elems5 o p i l)).
 Proof.
   induction l as [|x r IH]; intro i; [constructor|]. cbn [elems5]. specialize (IH (N.succ i)).
   destruct (elems5 o p (N.succ i) r) as [es ds]. destruct (memp (p ++ [SIdx i]) (o_nonsd o)); cbn [snd] in *; [assumption|].
-  constructor; [left; discriminate|assumption].
+  constructor; [left; cbn; lia|assumption].
 Qed.
 
 Lemma issue5_Qd o cv : forall ign p t, issue5 o ign p cv = Ok t -> Forall Qd (t_lvl t ++ t_nst t).
@@ -754,7 +754,7 @@ Proof.
   apply in_map_iff in Hrk as ([k x] & <- & Hkx).
   rewrite Forall_forall in IH. specialize (IH (k, x) Hkx). cbn [snd] in IH.
   unfold member5 in Ek. cbn [fst snd] in Ek. set (cur := p ++ [SKey k]) in *.
-  assert (Hmk : forall v, Qd (mk 3 cur k v)) by (intro v0; left; discriminate).
+  assert (Hmk : forall v, Qd (mk 3 cur k v)) by (intro v0; left; cbn; lia).
   destruct x as [| b | z | s | a0 e0 e s n v | l | mm]; try discriminate.
   - destruct (memp cur (o_nonsd o) || ign); inversion Ek; subst; cbn in Hd; try contradiction. destruct Hd as [<-|[]]. apply Hmk.
   - destruct (memp cur (o_nonsd o) || ign); inversion Ek; subst; cbn in Hd; try contradiction. destruct Hd as [<-|[]]. apply Hmk.
@@ -791,7 +791,7 @@ Proof.
   intros HQ Hs a' c s n v. destruct (memv (VDig a' c 0 s n v) (map (digest a) (choose sel ds))) eqn:M; [|reflexivity].
   apply memv_In in M. apply in_map_iff in M as (d & He & Hd). apply filter_In in Hd as [Hin Hsel].
   rewrite Forall_forall in HQ. destruct (HQ d Hin) as [Hq|Hq].
-  - unfold digest in He. inversion He. congruence.
+  - unfold digest in He. inversion He as [[E1 E2 E3 E4 E5 E6]]. rewrite E3 in Hq. lia.
   - apply memp_In in Hsel. rewrite forallb_forall in Hs. rewrite (Hs _ Hsel) in Hq. discriminate.
 Qed.
 
@@ -868,7 +868,7 @@ Proof.
     set (ds := t_lvl t ++ t_nst t).
     set (D := map (digest (o_alg o)) (choose sel ds)).
     assert (HQ : Forall Qd ds).
-    { apply Forall_forall. intros d Hd. left. rewrite (issue2_Qd o _ _ _ Hd). discriminate. }
+    { apply Forall_forall. intros d Hd. left. rewrite (issue2_Qd o _ _ _ Hd). lia. }
     assert (HD : Dnodecoy D) by (apply Dnodecoy_choose; assumption).
     pose proof (level2_all o sel D HD (VObj claims) true [] Hc (Dok_choose (o_alg o) sel ds)) as Hl.
     destruct (obj_v2 (o_alg o) D HD true t _ _ o [] (registered o) (registered_out o) eq_refl Hnd Hl
